@@ -34,7 +34,7 @@ def run(res, tier, seed):
     st = vlib.mc(os.path.join(vlib.SPEC, "MC_Tsig.tla"), os.path.join(vlib.SPEC, "MC_Tsig.cfg"), wd, workers=8)
     res.add_mc("MC_Tsig", st)
     # ---- R
-    dts = "{0 - 301, 0 - 300, 0 - 299, 0, 299, 300, 301}" if tier == "thorough" else "{0 - 301, 0 - 299, 0, 300, 301}"
+    dts = "{0 - 301, 0 - 300, 0 - 299, 0 - 150, 0 - 1, 0, 1, 150, 299, 300, 301}" if tier == "thorough" else "{0 - 301, 0 - 299, 0, 300, 301}"
     tla, cfg = vlib.wrapper(wd, "GT", "Gen_Tsig", {"P_Dts": dts, "P_Tampers": TAMPERS}, GEN_CFG)
     cases, gst = vlib.gen(tla, cfg, wd, workers=8, timeout=1500)
     if len(cases) < 1000:
@@ -71,7 +71,7 @@ def run(res, tier, seed):
     res.extra.update({"generated_cases_replayed": n, "authentic_requests": hon, "authentic_requests_that_took_effect": hon_eff,
                       "signed_replies_checked": replies})
     # ---- T
-    n_corpus = 24 if tier == "thorough" else 3
+    n_corpus = 400 if tier == "thorough" else 3
     t2 = os.path.join(wd, "mut.trace.ndjson")
     vlib.run_driver("drive_tsig", ["record", "--trace", t2, "--n", str(n_corpus), "--seed", str(seed)],
                     stdout_path=os.path.join(wd, "mut.out"), timeout=3000)
